@@ -216,7 +216,7 @@ Cfg make_cfg(Rng& rng, bool vegas)
     c.channels = rng.range(1, 5);
     c.alpha = rng.below(3) == 0 ? T(1.5) : rng.below(4) == 0 ? T(0) : T(3 * rng.u01l());
     c.zero_below = rng.below(2) ? T() : T(0.1L + 0.6L * rng.u01l());
-    c.beta = rng.below(3) == 0 ? T(0.25) : T(0.05L + 0.95L * rng.u01l());
+    c.beta = rng.below(3) == 0 ? T(0.25) : rng.below(5) == 0 ? T(0) : T(0.05L + 0.95L * rng.u01l());
     c.minw = rng.below(2) ? T() : T(rng.u01l() * 0.5L / c.channels);
     c.user_state = rng.below(2);
     for (std::size_t d = 0; d < c.dims; ++d)
@@ -229,6 +229,7 @@ Cfg make_cfg(Rng& rng, bool vegas)
     }
     c.weights.resize(c.channels);
     for (auto& w : c.weights) w = rng.below(4) ? T(rng.range(1, 20)) * T(0.7) : T();
+    if (rng.below(2)) c.weights[rng.below(c.channels)] *= T(0.01);     // far below the minimum weight
     bool any = false;
     for (T w : c.weights) any = any || w != T();
     if (!any) c.weights[rng.below(c.channels)] = T(2);
@@ -241,13 +242,13 @@ Cfg make_cfg(Rng& rng, bool vegas)
 void run_case(Rng& rng, std::uint64_t idx)
 {
     bool vegas = idx % 2 == 0;
-    int mode = (idx / 2) % 4;     // 0 serial, 1 resumed through text, 2 shim MPI, 3 shim MPI continued from a checkpoint that already holds results
+    int mode = (idx / 2) % 5;     // 0 serial, 1 resumed through text, 2 shim MPI, 3 shim MPI continued from a checkpoint that already holds results
     Cfg c = make_cfg(rng, vegas);
     std::size_t n = rng.range(2, ctx().thorough ? 8 : 5);
     std::vector<std::size_t> calls;
     for (std::size_t i = 0; i < n; ++i) calls.push_back(rng.range(50, 500));
     E gen((unsigned)rng.next());
-    static char const* modes[] = {"serial", "resumed", "mpi", "mpi-resumed"};
+    static char const* modes[] = {"serial", "resumed", "mpi", "mpi-resumed", "rolled-back-and-rerun"};
     J info;
     info.s("T", tname<T>::get()).s("integrator", vegas ? "vegas" : "multi_channel").uv("calls", calls).u("dims", c.dims).u("bins", c.bins).u("channels", c.channels)
         .f("alpha", c.alpha).f("beta", c.beta).f("min_weight", c.minw).b("user_state", c.user_state).fv("user_weights", c.weights);
@@ -289,6 +290,41 @@ void run_case(Rng& rng, std::uint64_t idx)
                 mchk_t r = hep::multi_channel(hep::make_multi_channel_integrand<T>(f2, c.dims, c.map, c.dims, c.channels), c2, b, cb2);
                 judge_mc(c, r, rl2, a.generator(), cut, "resumed", J(info).u("cut", cut));
             }
+        }
+    }
+    else if (mode == 4)
+    {
+        // run, ask the checkpoint for its next state, roll back to k and run a DIFFERENT list of iterations
+        std::size_t k = rng.below(n);
+        std::vector<std::size_t> calls2;
+        for (std::size_t i = 0; i < rng.range(2, 4); ++i) calls2.push_back(rng.range(50, 500));
+        std::vector<RankLog> rl(1), rl2(1);
+        J inf = J(info).u("rollback_to", k).uv("calls_after_rollback", calls2);
+        if (vegas)
+        {
+            RecIntegrand<T> f = make_f(c, &rl[0].log);
+            MarkCb<vchk_t> cb = {&rl[0]};
+            vchk_t a = hep::vegas(hep::make_integrand<T>(f, c.dims), calls, vegas_initial(c, gen), cb);
+            if (rng.below(2)) (void)a.pdf();
+            a.rollback(k);
+            RecIntegrand<T> f2 = make_f(c, &rl2[0].log);
+            MarkCb<vchk_t> cb2 = {&rl2[0]};
+            E g2 = a.generator();
+            vchk_t r = hep::vegas(hep::make_integrand<T>(f2, c.dims), calls2, a, cb2);
+            judge_vegas(c, r, rl2, g2, k, "rolled-back-and-rerun", inf);
+        }
+        else
+        {
+            RecIntegrand<T> f = make_f(c, &rl[0].log);
+            MarkCb<mchk_t> cb = {&rl[0]};
+            mchk_t a = hep::multi_channel(hep::make_multi_channel_integrand<T>(f, c.dims, c.map, c.dims, c.channels), calls, mc_initial(c, gen), cb);
+            if (rng.below(2)) (void)a.channel_weights();
+            a.rollback(k);
+            RecIntegrand<T> f2 = make_f(c, &rl2[0].log);
+            MarkCb<mchk_t> cb2 = {&rl2[0]};
+            E g2 = a.generator();
+            mchk_t r = hep::multi_channel(hep::make_multi_channel_integrand<T>(f2, c.dims, c.map, c.dims, c.channels), calls2, a, cb2);
+            judge_mc(c, r, rl2, g2, k, "rolled-back-and-rerun", inf);
         }
     }
     else if (mode == 3)
